@@ -68,6 +68,21 @@ CLAIMS["C11"] = (
     "unchanged or no proposals), read from source; Quantity truthiness is a None test.",
     "DESIGN.md §2 C11")
 
+CLAIMS["C15"] = (
+    "flow-sensitive term normal forms (accounting identity) + exception-aware, flag-sensitive CFG "
+    "path rules (failure totality, set complementarity, send/await discipline)",
+    "Decides on the parsed source: (ID) for every Success/PartialFailure constructed by the battery "
+    "and PV managers the polynomial normal form of succeeded+failed+excess, with reaching "
+    "definitions inlined and constant-only fields folded, equals request.power; (FAIL) every "
+    "exceptional exit of task.result() — Exception family and CancelledError — is caught and "
+    "books failed power and failed components exactly once while the success path books neither "
+    "(boolean flag idiom tracked path-sensitively); (SETS) complementarity by construction; "
+    "(ALL) one set_power per allocation, timed-out calls cancelled and awaited before results "
+    "are read. The numeric content of the allocations is C01's business, not decided here.",
+    "Trusted: unit wrappers are value-preserving; exception model of sa/engine/cfg.py; logging "
+    "does not raise.",
+    "DESIGN.md §2 C15")
+
 PENDING_REASON = ("no static check is registered for this property yet in this revision of the "
                   "machinery (planned rules are in DESIGN.md §2); nothing is claimed for it")
 
